@@ -7,6 +7,7 @@
 (***************************************************************************)
 EXTENDS PdfObjects
 
+
 HexDigitU(n) == IF n < 10 THEN 48 + n ELSE 55 + n          \* 0-9 A-F
 HexDigitL(n) == IF n < 10 THEN 48 + n ELSE 87 + n          \* 0-9 a-f
 HexPairU(b) == <<HexDigitU(b \div 16), HexDigitU(b % 16)>>
